@@ -4,6 +4,7 @@ def b_Tag_create_node : CR.SrcW.Builder where
   kind := .node
   tag := "scenarioTags"
   xsd := "tag"
+  path := []
   parent := ""
   attrs := []
   gattrs := []
@@ -17,7 +18,8 @@ def b_Tag_create_node_it1_value : CR.SrcW.Builder where
   key := "TagXMLNode.create_node/?it1.value"
   kind := .node
   tag := "?it1.value"
-  xsd := ""
+  xsd := "tag"
+  path := ["?it1.value"]
   parent := "TagXMLNode.create_node"
   attrs := []
   gattrs := []
